@@ -4,6 +4,7 @@ use std::io::Write;
 use std::panic::{catch_unwind, AssertUnwindSafe};
 
 pub mod wire;
+pub mod valuev;
 
 /// splitmix64: every random choice of a suite derives from one stream seeded by VERIF_SEED
 #[derive(Clone, Debug)]
